@@ -45,9 +45,10 @@ type Iface struct {
 }
 
 type Func struct {
-	Fn    *ssa.Function // nil => nil func (unless Builtin)
+	Fn    *ssa.Function // nil => nil func (unless Builtin / Noop)
 	Binds []Value
 	B     *ssa.Builtin
+	Noop  bool // engine-made function value that does nothing (e.g. context.CancelFunc)
 }
 
 type MapV struct{ Obj int }
